@@ -1,6 +1,6 @@
 (** C10 — Visible heads are normalized and cover everything referenced.
     Model: Model/RepoV.v (lib/src/view.rs, lib/src/repo.rs, lib/src/transaction.rs). *)
-From Verif Require Import Base.Prelude Base.DagV Model.Merge Model.RepoV Model.C10 Proofs.C10 Proofs.C10Rebase.
+From Verif Require Import Base.Prelude Base.DagV Model.Merge Model.RepoV Model.C10 Proofs.C10 Proofs.C10Rebase Proofs.C10Guard.
 
 (** The checker evaluated on the implementation's committed views means exactly the invariant:
     the heads are a non-empty antichain of the commit graph, the root commit is a head only if it
@@ -26,16 +26,23 @@ Proof. exact commit_inv_basic. Qed.
 
 (** ALL modelled operations, including rewrite_commit / abandon / divergent records and
     rebase_descendants (any options, immutable set, tree oracle): for every state reachable from
-    the empty repository by guarded operations, the view written by Transaction::commit satisfies
-    the invariant. Guards ([op_okb]): ids exist; bookmark targets have odd arity; and for a
-    descendant rebase: after its bookmark and working-copy updates no bookmark adds and no
-    workspace sits on a commit that still has a rewrite record (this is what C11_bookmarks_follow /
-    C11_wc_follows prove for unconflicted bookmarks and all workspaces, and what the C11 checker
-    evaluates on the implementation's output; it can fail only for a conflicted bookmark that adds
-    the same rewritten commit twice). *)
+    the empty repository, the view written by Transaction::commit satisfies the invariant. The only
+    guards ([op_okb2]): the ids an operation names exist and bookmark targets have odd arity (what
+    Merge::from_vec asserts). *)
 Theorem C10_commit_inv : forall s s' : state,
-  reach_all s -> step s OCommit = Ok s' -> Inv (pg (s_g s')) (s_v s').
-Proof. exact commit_inv_all. Qed.
+  reach_all2 s -> step s OCommit = Ok s' -> Inv (pg (s_g s')) (s_v s').
+Proof. exact commit_inv_all2. Qed.
+
+(** The fact behind the rebase step: after update_local_bookmarks and update_wc_commits no bookmark
+    adds and no workspace sits on a commit that still has a rewrite record - for every bookmark
+    shape (conflicted, the same commit added several times: one merge per occurrence removes one
+    occurrence), every ordering function, every record set. *)
+Theorem C10_refs_clear_after : forall ord s o sB,
+  J s -> bms_odd s -> names_sorted s ->
+  rebase_before_heads ord s o = Ok sB ->
+  (forall name t c, In (name, t) (v_bms (s_v sB)) -> In c (added_ids t) -> pm_get (s_pm sB) c = None) /\
+  (forall ws c, In (ws, c) (v_wcs (s_v sB)) -> pm_get (s_pm sB) c = None).
+Proof. intros ord s o sB Js Os Ns H. exact (proj1 (refs_clear_after ord s o sB Js Os Ns H)). Qed.
 
 (** The incremental head update of MutableRepo::add_heads: if [h] has parents and every parent of
     [h] is a head of a normalized head set (exactly the guard of the code), inserting [h] and
@@ -74,7 +81,7 @@ Check C10_okb_spec : forall c : case, okb c = true <-> _.
 Check C10_commit_inv_partial : forall s s' : state,
   reach_basic s -> step s OCommit = Ok s' -> Inv (pg (s_g s')) (s_v s').
 Check C10_commit_inv : forall s s' : state,
-  reach_all s -> step s OCommit = Ok s' -> Inv (pg (s_g s')) (s_v s').
+  reach_all2 s -> step s OCommit = Ok s' -> Inv (pg (s_g s')) (s_v s').
 
 Example C10_nonvacuous :
   exists s, reach_basic s /\ exists s', step s OCommit = Ok s' /\ length (s_g s') = 3 /\
@@ -89,5 +96,6 @@ Qed.
 Print Assumptions C10_okb_spec.
 Print Assumptions C10_commit_inv_partial.
 Print Assumptions C10_commit_inv.
+Print Assumptions C10_refs_clear_after.
 Print Assumptions C10_fast_path.
 Print Assumptions C10_root_fast_path_old_refuted.
